@@ -236,7 +236,7 @@ def r3(ctx):
     b = ctx.fn(PV)
     parts, _, _ = credential_parts_local(b)
     # the accumulator: a Vec<String> local that is pushed to under the comparisons
-    cands = [l for l, d in b.locals.items() if d["ty"].startswith("std::vec::Vec<std::string::String>")]
+    cands = [l for l, d in b.locals.items() if d["ty"].startswith("std::vec::Vec<std::string::String>") or (d["ty"] == "std::string::String" and b.names.get(l) and not b.locals[l].get("inlined_from"))]
     acc = None
     for l in cands:
         f = accumulator_facts(b, l)
@@ -293,7 +293,11 @@ def r4(ctx):
     b = ctx.co(GSK)
     self_l, region, service = param_by_name(b, "self"), param_by_name(b, "region"), param_by_name(b, "service")
     want = {
-        "access_key": lambda sl: sl.has_call(r"SigV4Authenticator::credential$") and sl.has_call(r"str>::split$") and sl.has_call(r"Iterator::next$") and not sl.has_call(r"Iterator::(last|nth|skip|rev)$|next_back$") and region not in sl.locals,
+        # the text before the first '/': first element of split('/'), or the first half of split_once('/') (the whole
+        # credential when there is no '/')
+        "access_key": lambda sl: sl.has_call(r"SigV4Authenticator::credential$") and region not in sl.locals and (
+            (sl.has_call(r"str>::split$") and sl.has_call(r"Iterator::next$") and not sl.has_call(r"Iterator::(last|nth|skip|rev)$|next_back$"))
+            or (sl.has_call(r"str>::split_once$") and not sl.has_call(r"str>::rsplit\w*$") and not any(fs and fs[-1] == "1" for _, fs in sl.fieldreads))),
         "session_token": lambda sl: sl.has_call(r"SigV4Authenticator::session_token$") and not sl.has_call(r"SigV4Authenticator::credential$"),
         "request_date": lambda sl: sl.has_call(r"SigV4Authenticator::request_timestamp$") and sl.has_call(r"DateTime::<Tz>::date_naive$"),
         "region": lambda sl: region in sl.locals and service not in sl.locals and self_l not in sl.locals,
@@ -313,7 +317,7 @@ def r4(ctx):
         else:
             yield PASS("C03-R4", "get_signing_key/setter/" + f, "setter `%s` fed as specified and dominates build()" % f, [site(b, cb, f)])
     # split separator '/'
-    sp = b.calls(r"str>::split$")
+    sp = b.calls(r"str>::split$|str>::split_once$")
     if sp and const_value(op_const(sp[0][1]["args"][1]) or {}) != ord("/"):
         yield VIOL("C03-R4", "get_signing_key/separator", "access key split on a separator other than '/'", where=b.span_of_block(sp[0][0]))
     # the request handed to the provider is that built request
